@@ -14,7 +14,8 @@ RULE = ('cases = generated tables (0-6 rows; field names incl. regex metacharact
         'the step changes schema or rows, or raises; distinct = distinct case digest'
         '; round 4: find_replace templates with \\g<n>, \\g<name> and escapes; rename specifications whose earlier target is matched by a later entry'
         '; round 7: rename/select patterns whose alternatives are prefixes of field names, narrowing twice, every case also read after all resources were taken from the stream'
-        '; round 8: rows reaching the step with their keys re-ordered; the same specification used just before with the other reading of the names (regex / literal)')
+        '; round 8: rows reaching the step with their keys re-ordered; the same specification used just before with the other reading of the names (regex / literal)'
+        '; round 9: field lists given as one-shot iterables over two selected resources (the second one is checked too); one select_fields object at two positions of a chain')
 TRUSTED = ['Coq 8.16.1 kernel + vm_compute', 'harness/p15.py printers and oracle',
            'Python re decides which names a field pattern fully matches and computes substitutions (tables handed to the model)',
            'avg over integers is compared only where the quotient is an exact small dyadic rational (float printed exactly)']
